@@ -182,3 +182,18 @@ def run_case(case, drv):
     if e_impl != e_model:
         res.disagree("evaluate_Ising", e_impl, e_model)
     return res
+
+
+EXHAUSTIVE_SCOPE = "all 2x2 matrices with entries in {-1, 0, 1/2, 1} x constants {0, 3/4} x container kinds {ndarray, csr, lil}" + \
+    ("" if "c01" == "c01" else " x patterns {upper-triangular, symmetric, none}")
+
+
+def gen_exhaustive():
+    import itertools
+    vals = ["-1", "0", "1/2", "1"]
+    for a, b, c_, d in itertools.product(vals, repeat=4):
+        M = [[a, b], [c_, d]]
+        for c in ("0", "3/4"):
+            for kind in ("ndarray", "csr", "lil"):
+                for pat in (("upper-triangular", "symmetric", "none") if "c01" != "c01" else ("-",)):
+                    yield dict(mode="square", r=2, c=2, M=M, const=c, kind=kind, h=["1/2", "-1"], cls="exhaustive")
